@@ -41,9 +41,9 @@ def shards(tier):
     return 14
 
 
-def encrypt_once(keysdir, plaintext, kid=7, reuse=False):
+def encrypt_once(keysdir, plaintext, kid=7, reuse=False, kname=KNAME):
     """reuse=True: ONE encryptor object (and whatever it keeps: KMS backend, pools, counters) serves all calls"""
-    ec, tag, info, dg, ln = X.plugin_encrypt(plaintext, KNAME, kid, keysdir, "sha-256", reuse=reuse)
+    ec, tag, info, dg, ln = X.plugin_encrypt(plaintext, kname, kid, keysdir, "sha-256", reuse=reuse)
     res = X.parse_info(info)
     return res, tag + ec
 
@@ -72,6 +72,27 @@ def hist_loop(rec, keysdir, n, events, kind="loop-same-plaintext"):
         reuse = i >= n // 2
         res, tc = encrypt_once(keysdir, pt, reuse=reuse)
         record(rec, kind + ("-one-encryptor-object" if reuse else ""), res, tc, pt, events)
+
+
+ALIASES = [KNAME, "./" + KNAME, "sub/../" + KNAME, KNAME + "_gen1", KNAME + ".v2", "sub/" + KNAME, "C14_KEY_COPY"]
+
+
+def hist_alias(rec, keysdir, n, events):
+    """the SAME key bytes reached under several names in one process: path spellings of one file (`./name`,
+    `sub/../name`) and copies of the key under other names (a rotated / per-product alias).  IV freshness is owed per KEY,
+    not per key name: a counter or pool kept per name restarts for every alias"""
+    os.makedirs(os.path.join(keysdir, "sub"), exist_ok=True)
+    for a in ALIASES[3:]:
+        with open(os.path.join(keysdir, a + ".bin"), "wb") as fh:
+            fh.write(KEY)
+    for i in range(n):
+        a = ALIASES[i % len(ALIASES)]
+        try:
+            res, tc = encrypt_once(keysdir, PT, reuse=(i // len(ALIASES)) % 2 == 1, kname=a)
+        except Exception as e:  # noqa
+            rec.count("alias-refused:" + a)
+            continue
+        record(rec, "same-key-under-another-name", res, tc, PT, events)
 
 
 def hist_cli(rec, keysdir, n, events):
@@ -270,6 +291,7 @@ def run_shard(rec, shard, nshards):
     hist_cli(rec, keysdir, CLI[rec.tier] // nshards, events)
     hist_rebuild(rec, keysdir, REBUILD[rec.tier] // nshards, events)
     hist_env(rec, keysdir, ENVN[rec.tier] // nshards, events, shard)
+    hist_alias(rec, keysdir, {"quick": 140, "thorough": 1400}[rec.tier], events)
     hist_loop(rec, keysdir, LOOP[rec.tier] // nshards, events)
     rec.extra["ivs"] = events
     if events:
@@ -302,7 +324,8 @@ def finish(merged, tier, seed):
     for k in ("events:loop-same-plaintext", "events:loop-same-plaintext-one-encryptor-object",
               "events:separate-cli-invocations", "events:fork-child",
               "events:frozen-clock-and-pid", "events:rebuild-into-same-directory",
-              "events:environment:reproducible-build", "events:environment-cli:reproducible-build"):
+              "events:environment:reproducible-build", "events:environment-cli:reproducible-build",
+              "events:same-key-under-another-name"):
         if cnt.get(k, 0) < 10:
             merged["inconclusive"].append(f"history {k} has fewer than 10 events")
     # informational only: bit statistics of the observed IVs (never a verdict)
